@@ -1637,6 +1637,27 @@ func c12Corpus() []struct {
 	ok.fwd[99], ok.fwd[100] = true, true
 	out = append(out, e{ok, 1, 0, "local", []uint32{100}})
 
+	// offered HTLC 5 is dust on OUR commitment and has an output on the peer's;
+	// user force close (fails 5 upstream at broadcast), then the REMOTE
+	// commitment confirms: failed back although it has an output there.
+	f2c := mk()
+	f2c.sets[c12L] = []c12H{{idx: 5, amt: 600000, exp: 700, out: -1, hash: 1}}
+	f2c.sets[c12R] = []c12H{{idx: 5, amt: 600000, exp: 700, out: 0, hash: 1}}
+	f2c.fwd[5] = true
+	out = append(out, e{f2c, 1, 0, "remote", []uint32{100}})
+
+	// the peer's two commitments disagree on whether dangling HTLC 7 is dust;
+	// user force close near its expiry, then OUR commitment confirms.
+	f2b := mk()
+	f2b.sets[c12L] = []c12H{{idx: 3, amt: 5000000, exp: 900, out: 0, hash: 1}}
+	f2b.sets[c12R] = []c12H{{idx: 3, amt: 5000000, exp: 900, out: 0, hash: 1},
+		{idx: 7, amt: 100000, exp: 900, out: -1, hash: 2}}
+	f2b.sets[c12P] = []c12H{{idx: 3, amt: 5000000, exp: 900, out: 0, hash: 1},
+		{idx: 7, amt: 100000, exp: 900, out: 1, hash: 2}}
+	f2b.pPresent = true
+	f2b.fwd[3], f2b.fwd[7] = true, true
+	out = append(out, e{f2b, 1, 0, "local", []uint32{896}})
+
 	// chain trigger exactly at the cutoff, one block before, one after.
 	ct := mk()
 	ct.sets[c12L] = []c12H{{idx: 1, amt: 10000000, exp: 700, out: 0, hash: 1}}
